@@ -43,6 +43,9 @@ class Scalar (R : Type) extends Add R, Sub R, Mul R, Div R, Neg R where
   /-- Rust `x as usize` (64 bit): truncation, saturating at 0 and 2^64-1, NaN ↦ 0 -/
   toUsize : R → Nat
   ofInt : Int → R
+  /-- Rust `x as f32 as f64`: rounding to binary32 (the identity in the exact readings) -/
+  toF32 : R → R
+  isFinite : R → Bool
   pi : R
 
 namespace Scalar
@@ -151,6 +154,8 @@ instance : Scalar Float where
   toI64 := FloatImpl.toI64
   toUsize := FloatImpl.toUsize
   ofInt := Float.ofInt
+  toF32 := fun x => x.toFloat32.toFloat
+  isFinite := Float.isFinite
   pi := Float.ofBits 0x400921FB54442D18
 
 end Geodesy
